@@ -457,3 +457,8 @@ func init() {
 	addMutant(Mutant{Name: "c18-decimal-pattern-allows-exponent", Property: "C18", File: "ytypes/leaf.go",
 		Old: "regexp.MustCompile(`^[+-]?[0-9]+(\\.[0-9]+)?$`)", New: "regexp.MustCompile(`^[+-]?[0-9]+(\\.[0-9]+)?(e[0-9]+)?$`)", Expect: "decimal64:pattern"})
 }
+
+func init() {
+	addMutant(Mutant{Name: "c01-map-entries-single-stage-sort", Property: "C01", File: "ygot/render.go",
+		Old: "\t\treturn strings.Compare(fmt.Sprintf(\"%#v\", a.key.Interface()), fmt.Sprintf(\"%#v\", b.key.Interface()))\n", New: "\t\treturn 0\n", Expect: "mapJSON:comparator"})
+}
